@@ -67,6 +67,18 @@ pub enum Amt {
     F(u64),
     /// coefficient and number of fractional digits of a decimal
     D(i64, u8),
+    /// a decimal whose coefficient needs more than 64 bits: high and low half of the
+    /// i128 coefficient, number of fractional digits
+    X(i64, u64, u8),
+}
+
+impl Amt {
+    pub fn wide(c: i128, f: u8) -> Amt {
+        Amt::X((c >> 64) as i64, c as u64, f)
+    }
+    pub fn coefficient(hi: i64, lo: u64) -> i128 {
+        ((hi as i128) << 64) | lo as i128
+    }
 }
 
 #[cfg(not(feature = "fpdec"))]
@@ -82,6 +94,7 @@ pub mod amt {
         match a {
             Amt::F(bits) => f64::from_bits(bits),
             Amt::D(c, f) => c as f64 / 10f64.powi(f as i32),
+            Amt::X(hi, lo, f) => Amt::coefficient(hi, lo) as f64 / 10f64.powi(f as i32),
         }
     }
     pub fn simple() -> Amt {
@@ -115,7 +128,11 @@ pub mod amt {
     pub fn gen(r: &mut crate::prng::Prng) -> Amt {
         // the library special-cases 0 (sign) and 1 (rate multiples): their
         // neighbours in the amount type belong to the fixed set
-        const FIXED: [f64; 26] = [
+        // ... and the boundaries of the integer types a "whole number" shortcut would go through
+        const FIXED: [f64; 38] = [
+            2147483648.0, 4294967296.0, 9007199254740992.0, 9007199254740993.0, 9223372036854775808.0,
+            18446744073709551616.0, 18446744073709549568.0, 18446744073709555712.0, 1.7014118346046923e38,
+            3.402823669209385e38, 4294967295.0, 2147483647.0,
             0.9999999999999999, 1.0000000000000002, 5e-324, 0.9999999999999998,
             0.0, 1.0, 2.0, 7.5, 184.09, 0.1, 0.30000000000000004, 1e-7, 1e21,
             1e300, 5e-324, 2.2250738585072014e-308, f64::MAX, 123456789.12345679,
@@ -143,6 +160,7 @@ pub mod amt {
     pub fn to_amount(a: Amt) -> AmountT {
         match a {
             Amt::D(c, f) => Decimal::new_raw(c as i128, f.min(18)),
+            Amt::X(hi, lo, f) => Decimal::new_raw(Amt::coefficient(hi, lo), f.min(18)),
             Amt::F(bits) => {
                 // only used when a plan of the other back-end is replayed by mistake
                 Decimal::new_raw((f64::from_bits(bits) * 1000.0) as i128, 3)
@@ -184,6 +202,17 @@ pub mod amt {
             (15, 1), (25, 1), (125, 3), (99995, 3), (45, 3), (1, 18),
             (123456789123456789, 9), (i64::MAX, 0), (i64::MAX, 18), (1_000_000_000_000_000, 0),
         ];
+        if r.chance(1, 12) {
+            // coefficients beyond 64 bits (the decimal type holds an i128); kept below
+            // 2^100 so that the trusted primitive can still format them with a precision
+            let c = (((r.next() >> 28) as i128) << 64) | r.next() as i128;
+            let c = match r.below(4) {
+                0 => i64::MAX as i128 + 1 + r.below(3) as i128,
+                1 => u64::MAX as i128 + r.below(3) as i128,
+                _ => c,
+            };
+            return Amt::wide(if r.chance(1, 3) { -c } else { c }, r.below(19) as u8);
+        }
         let (c, f) = match r.below(10) {
             0..=4 => *r.pick(&FIXED),
             5 | 6 => (r.below(2_000_000) as i64 - 1_000_000, r.below(4) as u8),
